@@ -1,5 +1,4 @@
-import Rustic.Lemmas.CommandTable
-import Rustic.Lemmas.Config
+import Rustic.Lemmas.CommandTableConfig
 import Rustic.Gen.RepositoryApi
 /-
 C15 — Append-only and dry-run modes never remove or overwrite stored data.
@@ -199,23 +198,6 @@ theorem files_survive_without_disarm (es : List Exec) (s : State) (hao : s.appen
     (hc : AllConform s es) (f : File) (hf : f ∈ s.files) (hp : f.isProtected = true) : f ∈ (es.foldl step s).files :=
   history_keeps es s (append_only_persists_without_disarm es s hao hn hc) f hf hp
 
-/-- the append-only flag of a config as the guards read it (`config.append_only == Some(true)`). -/
-def flagOf (c : Rustic.Config.ConfigFile) : Bool := c.appendOnly == some true
-
-def rejectionOf : Rustic.Config.Fail → Rejection
-  | .err .unsupported => .unsupported
-  | .err .invalidInput => .invalidInput
-  | _ => .internal
-
-/-- the table's classification of an `apply_config(opts)` call on a handle whose in-memory config is `mem`. -/
-def classify (mem : Rustic.Config.ConfigFile) (o : Rustic.Config.ConfigOptions) : ConfigChange :=
-  match Rustic.Config.apply o mem with
-  | .error e => .rejected o.setAppendOnly (rejectionOf e)
-  | .ok c' =>
-    match o.setAppendOnly with
-    | some b => .setAppendOnly b
-    | none => .other (c' != mem)
-
 /-- The table's single flag IS the handle's in-memory flag: for every in-memory config, stored config and options,
 the config model of `apply_config` on the handle (`Rustic.Config.applyConfigH`: guard on the in-memory copy, options
 applied to a clone) is refused exactly when the table refuses the classified change, and the append-only flag of
@@ -226,73 +208,8 @@ theorem handle_flag_is_table_flag (mem : Rustic.Config.ConfigFile) (st : Rustic.
     ((∃ err, (Rustic.Config.applyConfigH mem st o).2.2 = .error err) ↔
       ∃ k, run hc (flagOf mem) (.applyConfig (classify mem o)) = .refused k) ∧
     flagOf (Rustic.Config.applyConfigH mem st o).1 =
-      (step ⟨flagOf mem, files, hc⟩ ⟨.applyConfig (classify mem o), ops⟩).appendOnly := by
-  unfold Rustic.Config.applyConfigH
-  by_cases hg : mem.appendOnly = some true ∧ o.setAppendOnly ≠ some false
-  · -- refused by the guard
-    have hf : flagOf mem = true := by simp [flagOf, hg.1]
-    simp only [if_pos hg, hf]
-    have hrun : run hc true (.applyConfig (classify mem o)) = .refused .appendOnly := by
-      unfold classify
-      cases Rustic.Config.apply o mem with
-      | error e => simp [run, hg.2]
-      | ok c' =>
-        cases hs : o.setAppendOnly with
-        | none => simp [run]
-        | some b => cases b <;> simp_all [run]
-    refine ⟨⟨fun _ => ⟨_, hrun⟩, fun _ => ⟨_, rfl⟩⟩, ?_⟩
-    simp [step, hrun]
-  · simp only [if_neg hg]
-    have hg' : flagOf mem = true → o.setAppendOnly = some false := by
-      intro hf
-      have : mem.appendOnly = some true := by simpa [flagOf] using hf
-      exact Classical.byContradiction fun hne => hg ⟨this, hne⟩
-    cases hm : Rustic.Config.applyMut o mem with
-    | mk a b =>
-      cases b with
-      | some e =>
-        -- rejected by a validation
-        have hap : Rustic.Config.apply o mem = .error e := Rustic.Config.applyMut_err.1 (by rw [hm])
-        have hrun : ∃ k, run hc (flagOf mem) (.applyConfig (classify mem o)) = .refused k := by
-          simp only [classify, hap, run]; split <;> exact ⟨_, rfl⟩
-        refine ⟨⟨fun _ => hrun, fun _ => ⟨_, rfl⟩⟩, ?_⟩
-        obtain ⟨k, hk⟩ := hrun
-        simp [step, hk]
-      | none =>
-        have hap : Rustic.Config.apply o mem = .ok a := Rustic.Config.applyMut_ok.1 hm
-        have hao : a.appendOnly = Rustic.Config.named o.setAppendOnly mem.appendOnly := by
-          rw [(Rustic.Config.apply_ok hap).1]; rfl
-        have hrun : run hc (flagOf mem) (.applyConfig (classify mem o)) = .runs [.write .config] := by
-          simp only [classify, hap]
-          cases hs : o.setAppendOnly with
-          | none =>
-            have : flagOf mem = false := by
-              cases hf : flagOf mem with
-              | false => rfl
-              | true => have := hg' hf; simp [hs] at this
-            simp [run, this]
-          | some b =>
-            cases hf : flagOf mem with
-            | false => simp [run]
-            | true =>
-              have := hg' hf
-              rw [hs] at this
-              cases this
-              simp [run]
-        have hfst : (if a = mem then (mem, st, (Except.ok false : Except Rustic.Config.Fail Bool))
-            else (a, { config := a, writes := st.writes + 1 }, Except.ok true)).1 = a := by
-          split
-          · rename_i h; exact h.symm
-          · rfl
-        refine ⟨⟨fun ⟨err, he⟩ => ?_, fun ⟨k, hk⟩ => ?_⟩, ?_⟩
-        · by_cases hc' : a = mem <;> simp [hc'] at he
-        · rw [hrun] at hk; cases hk
-        · rw [hfst]
-          simp only [step, hrun]
-          simp only [classify, hap]
-          cases hs : o.setAppendOnly with
-          | none => simp [flagOf, hao, hs]
-          | some b => cases b <;> simp [flagOf, hao, hs]
+      (step ⟨flagOf mem, files, hc⟩ ⟨.applyConfig (classify mem o), ops⟩).appendOnly :=
+  applyConfigH_flag_is_table_flag mem st o hc files ops
 
 /-- The harness tokens: what the traffic check expects is a refusal exactly where the table refuses. -/
 def aoTokens : List String :=
